@@ -16,6 +16,11 @@ Tie of the generated effect table (coq/gen/Gen_c20.v, theorems in coq/props/C20.
    call is preceded by calls that used the same sequences with other arguments - per-sequence state kept by an earlier
    call (a memoised helper whose result was modified in place, a reused index) then shows up as a difference from the
    fresh-process result.
+ * PROCESS-WIDE state outside pyrepseq's modules (`ambient`: NumPy error mode / print options, warnings filters, matplotlib
+   rcParams, pandas options, Python's `random`, os.environ, cwd, ...) is part of every snapshot: a call that leaves it
+   changed violates the property (later results depend on it).  `edge_templates`: calls that raise LATE (inside the
+   optimiser, a callback, a library routine, a half-drawn figure) and BOUNDARY calls with nan / inf / empty results; every
+   raising template is followed by the boundary templates in the after-raise sessions.
 This file is also the worker: `python c20.py worker` reads {"history": [[template, seed-or-null], ...]} (one fresh
 interpreter running one history) or {"fork": [history, ...]} (an interpreter that has imported pyrepseq but made no call
 forks one pristine child per history; used for the single-call references and for shrinking)."""
@@ -236,6 +241,7 @@ def templates():
         T('pc_grouped_cross_list', ['stats.pc_grouped_cross'], lambda: (prs.pc_grouped_cross, [tcr_df(), 'donor', ['TRBV', 'TRAV']], {})),
         T('pc_conditional', ['stats.pc_conditional'], lambda: (prs.pc_conditional, [tcr_df(), ['group'], 'TRBV'], {})),
         T('pc_conditional_w', ['stats.pc_conditional'], lambda: (prs.pc_conditional, [tcr_df(), 'group', ['TRBV', 'TRAV']], dict(group_weights=[1.0, 2.0, 3.0]))),
+        T('pc_conditional_w_array', ['stats.pc_conditional'], lambda: (prs.pc_conditional, [tcr_df(), 'group', 'TRBV'], dict(group_weights=np.array([1.0, 2.0, 3.0])))),
         T('varpc_n', ['stats.varpc_n'], lambda: (prs.varpc_n, [np.array(COUNTS)], {})),
         T('stdpc_n', ['stats.stdpc_n'], lambda: (prs.stdpc_n, [np.array(COUNTS)], {})),
         T('stdpc', ['stats.stdpc'], lambda: (prs.stdpc, [list(SEQS) + list(SEQS2)], {})),
@@ -331,6 +337,7 @@ def templates():
         T('renyi2', ['entropy.renyi2_entropy'], lambda: (prs.renyi2_entropy, [tcr_df(), 'TRBV'], {})),
         T('renyi2_joint', ['entropy.renyi2_entropy'], lambda: (prs.renyi2_entropy, [tcr_df(), ['TRBV', 'group']], dict(base=None))),
         T('renyi2_by', ['entropy.renyi2_entropy'], lambda: (prs.renyi2_entropy, [tcr_df(), 'TRBV'], dict(by='group', group_weights=[3, 2, 1]))),
+        T('renyi2_by_array', ['entropy.renyi2_entropy'], lambda: (prs.renyi2_entropy, [tcr_df(), 'TRBV'], dict(by='group', group_weights=np.array([3.0, 2.0, 1.0])))),
         T('stdrenyi2', ['entropy.stdrenyi2_entropy'], lambda: (prs.stdrenyi2_entropy, [tcr_df(), ['TRBV', 'group']], {})),
         T('renyi2_base_raises', ['entropy.renyi2_entropy'], lambda: (prs.renyi2_entropy, [tcr_df(), 'TRBV'], dict(base=-1.0))),
     ]
@@ -357,12 +364,146 @@ def templates():
     for t in L:
         if t['name'].startswith('clustermap_split'):
             t['fig'] = True
+    L += edge_templates()
     L += shared_templates()
     out = {}
     for t in L:
         assert t['name'] not in out, t['name']
         out[t['name']] = t
     return out
+
+
+class Failing:
+    """A caller-supplied callable that works for the first `n` calls and then raises: the exception comes out of the MIDDLE
+    of the pyrepseq call (after its set-up, inside a loop / a library routine / a worker), not out of its argument checks."""
+
+    def __init__(self, n, fn):
+        self.n, self.fn, self.calls, self.__name__ = n, fn, 0, 'failing_after_%d' % n
+
+    def __call__(self, *a, **k):
+        self.calls += 1
+        if self.calls > self.n:
+            raise RuntimeError('callback failed')
+        return self.fn(*a, **k)
+
+
+def lev1(a, b):
+    from rapidfuzz.distance.Levenshtein import distance
+    return distance(a, b)
+
+
+def edge_templates():
+    """Round 3.  (1) calls that raise LATE - from inside the optimiser, a callback, a library routine, a plotting call -
+    so that any 'set something, work, put it back' sequence of the callable is cut between the set and the put back;
+    (2) BOUNDARY calls whose correct result is nan / inf / empty (0/0, x/0, log 0): pc of one element, renyi2 without
+    coincidences, pcDelta of a single sequence ... - exactly the results that depend on process-wide numeric settings.
+    Sessions run every raising template followed by the boundary templates (make_histories)."""
+    import numpy as np
+    import pandas as pd
+    import pyrepseq as prs
+    import pyrepseq.nn as nn
+    import pyrepseq.util as util
+    import pyrepseq.plotting as pp
+    import pyrepseq.metric.tcr_metric as tm
+    single = lambda: pd.DataFrame(dict(s=['CASSA', 'CASSB', 'CASSC'], g=['u', 'u', 'v']))
+    nbh = lambda n: Failing(n, prs.hamming_neighbors)
+    L = [
+        # ---- raising late: statistics
+        T('mle_zero_cmin0_raises', ['stats.powerlaw_mle_alpha'], lambda: (prs.powerlaw_mle_alpha, [np.array(COUNTS + [0, 0])], dict(cmin=0))),
+        T('mle_zero_cmin0_list_raises', ['stats.powerlaw_mle_alpha'], lambda: (prs.powerlaw_mle_alpha, [[5, 0, 3, 1, 1, 0]], dict(cmin=0.0, bounds=[1.1, 6.0]))),
+        T('mle_bounds_short_raises', ['stats.powerlaw_mle_alpha'], lambda: (prs.powerlaw_mle_alpha, [list(COUNTS)], dict(bounds=[1.5]))),
+        T('mle_bounds_order_raises', ['stats.powerlaw_mle_alpha'], lambda: (prs.powerlaw_mle_alpha, [list(COUNTS)], dict(bounds=[4.5, 1.5]))),
+        T('mle_tol_raises', ['stats.powerlaw_mle_alpha'], lambda: (prs.powerlaw_mle_alpha, [list(COUNTS)], dict(bounds=[1.5, 4.5], options=dict(maxiter=50), tol='x'))),
+        T('mle_bracket_raises', ['stats.powerlaw_mle_alpha'], lambda: (prs.powerlaw_mle_alpha, [tuple(COUNTS)], dict(cmin=1.0, bracket=(2.0, 3.0)))),
+        T('mle_maxiter_raises', ['stats.powerlaw_mle_alpha'], lambda: (prs.powerlaw_mle_alpha, [pd.Series(COUNTS)], dict(options=dict(maxiter=2)))),
+        T('mle_strings_raises', ['stats.powerlaw_mle_alpha'], lambda: (prs.powerlaw_mle_alpha, [['a', 'b']], dict(cmin='a'))),
+        T('subsample_toomany_raises', ['stats.subsample'], lambda: (prs.subsample, [list(COUNTS), 500], {}), random=True),
+        T('pc_conditional_weights_raises', ['stats.pc_conditional'], lambda: (prs.pc_conditional, [tcr_df(), 'group', 'TRBV'], dict(group_weights=[1.0, 2.0]))),
+        T('pc_joint_column_raises', ['stats.pc_joint'], lambda: (prs.pc_joint, [tcr_df(), ['TRBV', 'nope']], {})),
+        T('pc_grouped_cross_column_raises', ['stats.pc_grouped_cross'], lambda: (prs.pc_grouped_cross, [tcr_df(), 'group', 'nope'], {})),
+        T('jaccard_empty_raises', ['stats.jaccard_index'], lambda: (prs.jaccard_index, [[], []], {})),
+        T('powerlaw_sample_alpha1_raises', ['stats.powerlaw_sample'], lambda: (prs.powerlaw_sample, [3], dict(xmin=1, alpha=1.0)), random=True),
+        # ---- raising late: search / distances (callback fails after a few pairs)
+        T('symdel_cb_raises', ['nn.symdel'], lambda: (prs.symdel, [list(SEQS)], dict(max_edits=2, custom_distance=Failing(4, lev1), max_custom_distance=5))),
+        T('kdtree_cb_raises', ['nn.kdtree'], lambda: (prs.kdtree, [list(SEQS)], dict(max_edits=2, custom_distance=Failing(4, lev1), max_custom_distance=5))),
+        T('kdtree_cb_ncpu2_raises', ['nn.kdtree'], lambda: (prs.kdtree, [list(SEQS)], dict(max_edits=2, custom_distance=Failing(4, lev1), max_custom_distance=5, n_cpu=2))),
+        T('hash_cb_raises', ['nn.hash_based'], lambda: (prs.hash_based, [list(SEQS)], dict(max_edits=1, custom_distance=Failing(4, lev1), max_custom_distance=5))),
+        T('nearest_neighbor_cb_raises', ['nn.nearest_neighbor'], lambda: (prs.nearest_neighbor, [list(SEQS)], dict(max_edits=1, seqs2=list(SEQS2), custom_distance=Failing(4, lev1), max_custom_distance=5))),
+        T('symdeldb_cb_raises', ['nn.SymdelDB.__init__', 'nn.SymdelDB.lookup'], lambda: (lambda s, q, d: nn.SymdelDB(s, 1).lookup(q, custom_distance=d, max_custom_distance=5), [list(SEQS), list(SEQS2), Failing(2, lev1)], {})),
+        T('tcrdist_column_raises', ['nn.nearest_neighbor_tcrdist'], lambda: (prs.nearest_neighbor_tcrdist, [tcr_df().drop(columns=['TRBV'])], dict(chain='beta', max_edits=2, max_tcrdist=60))),
+        T('pdist_cb_raises', ['distance.pdist'], lambda: (prs.pdist, [list(SEQS)], dict(metric=Failing(5, lev3)))),
+        T('cdist_cb_raises', ['distance.cdist'], lambda: (prs.cdist, [list(SEQS), list(SEQS2)], dict(metric=Failing(5, lev3)))),
+        T('pcDelta_bins_raises', ['distance.pcDelta'], lambda: (prs.pcDelta, [list(SEQS)], dict(bins=[3, 1, 2]))),
+        T('pcDelta_metric_raises', ['distance.pcDelta'], lambda: (prs.pcDelta, [list(SEQS)], dict(metric=Failing(5, lev3)))),
+        T('neighbor_numbers_cb_raises', ['distance.calculate_neighbor_numbers'], lambda: (prs.calculate_neighbor_numbers, [list(SEQS)], dict(neighborhood=nbh(3)))),
+        T('find_pairs_cb_raises', ['distance.find_neighbor_pairs'], lambda: (prs.find_neighbor_pairs, [list(SHORT)], dict(neighborhood=nbh(3)))),
+        T('find_pairs_set_cb_raises', ['distance.find_neighbor_pairs'], lambda: (prs.find_neighbor_pairs, [set(SHORT)], dict(neighborhood=nbh(2)))),
+        T('next_nearest_cb_raises', ['distance.next_nearest_neighbors'], lambda: (prs.next_nearest_neighbors, ['CAF', nbh(2)], dict(maxdistance=2))),
+        T('hierarchical_linkage_raises', ['distance.hierarchical_clustering'], lambda: (prs.hierarchical_clustering, [list(SEQS)], dict(linkage_kws=dict(method='nope')))),
+        T('hierarchical_criterion_raises', ['distance.hierarchical_clustering'], lambda: (prs.hierarchical_clustering, [list(SEQS)], dict(cluster_kws=dict(t=1, criterion='nope')))),
+        T('lev_cdist_notstr_raises', ['metric.levenshtein.Levenshtein.calc_cdist_matrix'], lambda: (lambda a, b: prs.metric.Levenshtein().calc_cdist_matrix(a, b), [list(SEQS), [1, 2]], {})),
+        T('cdr3lev_notstr_raises', ['metric.tcr_metric.tcr_levenshtein.TcrLevenshtein.calc_pdist_vector'], lambda: (lambda d: tm.Cdr3Levenshtein().calc_pdist_vector(d), [tcr_df().assign(CDR3B=[1] * 10)], {})),
+        # ---- raising late: clustering / io / util
+        T('graph_method_raises', ['clustering.graph_clustering'], lambda: (prs.graph_clustering, [trip(), list(SEQS)], dict(clustering='nope'))),
+        T('graph_nodes_raises', ['clustering.graph_clustering'], lambda: (prs.graph_clustering, [[[0, 99, 1]], list(SEQS)], {})),
+        T('standardize_cell_raises', ['io.standardize_dataframe'], lambda: (prs.standardize_dataframe, [raw_df().assign(TRBV=[5, 6.5, 'TRBV7-2*01'])], dict(suppress_warnings=True))),
+        T('multimerge_clash_raises', ['io.multimerge'], lambda: (prs.multimerge, [[tcr_df()[['clone_count']], tcr_df()[['group']]], 'index'], dict(right_index=True))),
+        T('multimerge_key_raises', ['io.multimerge'], lambda: (prs.multimerge, [[tcr_df()[['CDR3B', 'clone_count']], tcr_df()[['group']]], 'CDR3B'], {})),
+        T('seqs_to_regex_ragged_raises', ['util.seqs_to_regex'], lambda: (util.seqs_to_regex, [['CASF', 'CA']], dict(align=False))),
+        # ---- raising late: plotting (the figure is half drawn)
+        T('rankfrequency_color_raises', ['plotting.rankfrequency'], lambda: (pp.rankfrequency, [list(COUNTS)], dict(color='notacolor')), fig=True),
+        T('rankfrequency_kw_raises', ['plotting.rankfrequency'], lambda: (pp.rankfrequency, [list(COUNTS)], dict(nope=3)), fig=True),
+        T('similarity_clustermap_criterion_raises', ['plotting.similarity_clustermap'], lambda: (pp.similarity_clustermap, [tcr_df()], dict(alpha_column='CDR3A', beta_column='CDR3B', cluster_kws=dict(t=1, criterion='nope'))), random=True, fig=True),
+        T('similarity_clustermap_cbar_raises', ['plotting.similarity_clustermap'], lambda: (pp.similarity_clustermap, [tcr_df()], dict(alpha_column='CDR3A', beta_column='CDR3B', cbar_kws=dict(nope=1))), random=True, fig=True),
+        T('similarity_clustermap_meta_raises', ['plotting.similarity_clustermap'], lambda: (pp.similarity_clustermap, [tcr_df()], dict(alpha_column='CDR3A', beta_column='CDR3B', meta_columns=['nope'])), random=True, fig=True),
+        T('seqlogos_kw_raises', ['plotting.seqlogos'], lambda: (pp.seqlogos, [['CASF', 'CATF']], dict(nope=3)), fig=True),
+        T('density_scatter_length_raises', ['plotting.density_scatter'], lambda: (pp.density_scatter, [[1.0, 2.0, 3.0], [1.0, 2.0]], dict(bins=3)), fig=True),
+        T('density_scatter_kw_raises', ['plotting.density_scatter'], lambda: (pp.density_scatter, [list(np.linspace(0, 1, 30)), list(np.linspace(0, 1, 30) ** 2)], dict(bins=5, nope=2)), fig=True),
+        T('clustermap_split_shape_raises', ['plotting.clustermap_split', 'plotting.ClusterGridSplit.__init__', 'plotting.ClusterGridSplit.plot_matrix'],
+          lambda: (pp.clustermap_split, [pd.DataFrame(np.arange(16.0).reshape(4, 4)), pd.DataFrame(np.arange(9.0).reshape(3, 3))], dict(figsize=(3, 3))), fig=True),
+        T('colors_hls_kws_raises', ['plotting.labels_to_colors_hls'], lambda: (pp.labels_to_colors_hls, [list('aabb')], dict(palette_kws=dict(nope=1))), random=True),
+    ]
+    B = [
+        # ---- boundary results: nan / inf / empty
+        T('bd_pc_one', ['stats.pc'], lambda: (prs.pc, [['CASSA']], {})),
+        T('bd_pc_one_array', ['stats.pc'], lambda: (prs.pc, [np.array(['CASSA'])], {})),
+        T('bd_pc_two_empty', ['stats.pc'], lambda: (prs.pc, [['A'], []], {})),
+        T('bd_pc_n_one', ['stats.pc_n'], lambda: (prs.pc_n, [[1]], {})),
+        T('bd_pc_n_zero', ['stats.pc_n'], lambda: (prs.pc_n, [np.array([0, 0])], {})),
+        T('bd_pc_joint_one', ['stats.pc_joint'], lambda: (prs.pc_joint, [single().iloc[:1], ['s', 'g']], {})),
+        T('bd_pc_conditional_singletons', ['stats.pc_conditional'], lambda: (prs.pc_conditional, [single(), 's', 'g'], {})),
+        T('bd_pc_conditional_nocoincidence', ['stats.pc_conditional'], lambda: (prs.pc_conditional, [single(), 'g', 's'], {})),
+        T('bd_pc_grouped_cross_singletons', ['stats.pc_grouped_cross'], lambda: (prs.pc_grouped_cross, [single(), 's', 'g'], {})),
+        T('bd_stdpc_n_one', ['stats.stdpc_n'], lambda: (prs.stdpc_n, [np.array([1])], {})),
+        T('bd_stdpc_two', ['stats.stdpc'], lambda: (prs.stdpc, [['A', 'B']], {})),
+        T('bd_stdpc_joint', ['stats.stdpc_joint'], lambda: (prs.stdpc_joint, [single(), ['s', 'g']], {})),
+        T('bd_mle_simple_all_cmin', ['stats.powerlaw_mle_alpha'], lambda: (prs.powerlaw_mle_alpha, [[2, 2, 2]], dict(cmin=2.0, method='simple'))),
+        T('bd_mle_cc_none_left', ['stats.powerlaw_mle_alpha'], lambda: (prs.powerlaw_mle_alpha, [[1, 1]], dict(cmin=2.0, method='continuitycorrection'))),
+        T('bd_mle_exact_none_left', ['stats.powerlaw_mle_alpha'], lambda: (prs.powerlaw_mle_alpha, [[1, 1]], dict(cmin=2.0))),
+        T('bd_mle_exact', ['stats.powerlaw_mle_alpha'], lambda: (prs.powerlaw_mle_alpha, [np.array(COUNTS * 3)], dict(cmin=2))),
+        T('bd_chao1_no_doubletons', ['stats.chao1'], lambda: (prs.chao1, [[1, 1, 1]], {})),
+        T('bd_chao1_zero', ['stats.chao1'], lambda: (prs.chao1, [[0]], {})),
+        T('bd_var_chao1_no_singletons', ['stats.var_chao1'], lambda: (prs.var_chao1, [[3, 3]], {})),
+        T('bd_chao2_m1', ['stats.chao2'], lambda: (prs.chao2, [[1, 2, 1], 1], {})),
+        T('bd_var_chao2_no_doubletons', ['stats.var_chao2'], lambda: (prs.var_chao2, [[1, 1, 1], 3], {})),
+        T('bd_overlap_coefficient_empty', ['stats.overlap_coefficient'], lambda: (prs.overlap_coefficient, [[], ['a']], {})),
+        T('bd_subsample_zero', ['stats.subsample'], lambda: (prs.subsample, [[0, 0], 0], {}), random=True),
+        T('bd_renyi2_no_coincidence', ['entropy.renyi2_entropy'], lambda: (prs.renyi2_entropy, [single(), 's'], {})),
+        T('bd_renyi2_no_coincidence_nats', ['entropy.renyi2_entropy'], lambda: (prs.renyi2_entropy, [single(), 's'], dict(base=None))),
+        T('bd_renyi2_by', ['entropy.renyi2_entropy'], lambda: (prs.renyi2_entropy, [single(), 's'], dict(by='g'))),
+        T('bd_stdrenyi2_no_coincidence', ['entropy.stdrenyi2_entropy'], lambda: (prs.stdrenyi2_entropy, [single(), 's'], {})),
+        T('bd_pcDelta_one', ['distance.pcDelta'], lambda: (prs.pcDelta, [['CASSA']], dict(bins=np.arange(0, 5)))),
+        T('bd_pcDelta_one_counts', ['distance.pcDelta'], lambda: (prs.pcDelta, [['CASSA']], dict(bins=np.arange(0, 5), normalize=False))),
+        T('bd_pcDelta_empty_histogram', ['distance.pcDelta'], lambda: (prs.pcDelta, [['CASSA', 'WWWWWWWWWW']], dict(bins=np.arange(0, 3)))),
+        T('bd_pcDelta_two_one', ['distance.pcDelta'], lambda: (prs.pcDelta, [['CASSA'], ['CASSA']], dict(bins=np.arange(0, 3)))),
+        T('bd_pdist_one', ['distance.pdist'], lambda: (prs.pdist, [['CASSA']], {})),
+        T('bd_hierarchical_identical', ['distance.hierarchical_clustering'], lambda: (prs.hierarchical_clustering, [['CASSA', 'CASSA']], {})),
+        T('bd_rankfrequency_zeros', ['plotting.rankfrequency'], lambda: (pp.rankfrequency, [[0.0, 0.0]], dict(normalize_y=True)), fig=True),
+        T('bd_rankfrequency_zero_log', ['plotting.rankfrequency'], lambda: (pp.rankfrequency, [[0.0, 0.0, 1.0]], dict(normalize_y=True)), fig=True),
+    ]
+    for t in B:
+        t['boundary'] = True
+    return L + B
 
 
 def shared_templates():
@@ -446,6 +587,16 @@ def shared_templates():
 # ------------------------------------------------------------------ snapshots
 def _defaults(prefix, f, snap):
     import inspect
+    code = getattr(f, '__code__', None)
+    if code is not None and not hasattr(f, '__wrapped__') and '__signature__' not in getattr(f, '__dict__', {}):
+        # plain function: what inspect.signature reports, read directly (ten times cheaper; this runs twice per call)
+        d = f.__defaults__ or ()
+        pos = code.co_varnames[:code.co_argcount]
+        for name, v in zip(pos[len(pos) - len(d):], d):
+            snap['D:%s:%s' % (prefix, name)] = canon(v)
+        for name, v in (f.__kwdefaults__ or {}).items():
+            snap['D:%s:%s' % (prefix, name)] = canon(v)
+        return
     try:
         sig = inspect.signature(f)
     except (TypeError, ValueError):
@@ -485,7 +636,80 @@ def world():
                 snap['G:' + q] = canon(v)
     st = np.random.get_state()
     snap['R:numpy.random'] = hashlib.md5(repr((st[0], st[1].tobytes(), st[2:])).encode()).hexdigest()
+    ambient(snap)
     return snap
+
+
+_ADDR = re.compile(r'0x[0-9a-fA-F]+')
+
+
+def _tok(v):
+    r = repr(v)
+    return _ADDR.sub('0x', r) if '0x' in r else r
+
+
+def _flat(prefix, d, snap):
+    for k, v in d.items():
+        if isinstance(v, dict):
+            _flat('%s%s.' % (prefix, k), v, snap)
+        else:
+            snap['%s%s' % (prefix, k)] = _tok(v)
+
+
+def ambient(snap):
+    """PROCESS-WIDE state outside pyrepseq's own modules that a call may leave changed and that later results depend on
+    (round 3): NumPy's floating-point error mode (decides whether 0/0 is nan or FloatingPointError) and print options,
+    the warnings filters, matplotlib's rcParams / interactive mode, pandas' options, Python's `random` generator (the
+    default random number generator of igraph), the environment, the working directory, a few interpreter settings.
+    Keys 'E:<state>'; only libraries that are already imported are looked at."""
+    import hashlib, random, warnings
+    import numpy as np
+    for k, v in np.geterr().items():
+        snap['E:numpy.errstate[%s]' % k] = v
+    snap['E:numpy.errcall'] = _tok(np.geterrcall())
+    for k, v in np.get_printoptions().items():
+        snap['E:numpy.printoptions[%s]' % k] = _tok(v)
+    snap['E:warnings.filters'] = [[f[0], getattr(f[1], 'pattern', None), getattr(f[2], '__name__', str(f[2])),
+                                   getattr(f[3], 'pattern', None), f[4]] for f in warnings.filters]
+    snap['E:python.random'] = hashlib.md5(repr(random.getstate()).encode()).hexdigest()
+    mpl = sys.modules.get('matplotlib')
+    if mpl is not None:
+        rc = mpl.rcParams
+        for k in dict.keys(rc):
+            snap['E:matplotlib.rcParams[%s]' % k] = _tok(dict.__getitem__(rc, k))
+        snap['E:matplotlib.interactive'] = bool(mpl.is_interactive())
+    pd = sys.modules.get('pandas')
+    if pd is not None:
+        try:
+            _flat('E:pandas.options.', pd._config.config._global_config, snap)
+        except Exception:
+            for k in ('mode.copy_on_write', 'mode.chained_assignment', 'mode.use_inf_as_na', 'future.infer_string',
+                      'future.no_silent_downcasting', 'display.precision', 'compute.use_numexpr', 'compute.use_bottleneck'):
+                try:
+                    snap['E:pandas.options.' + k] = _tok(pd.get_option(k))
+                except Exception:
+                    pass
+    for k, v in os.environ.items():
+        snap['E:os.environ[%s]' % k] = v
+    try:
+        snap['E:os.cwd'] = os.getcwd()
+    except OSError as e:
+        snap['E:os.cwd'] = '<%s>' % type(e).__name__
+    snap['E:sys.path'] = list(sys.path)
+    snap['E:sys.recursionlimit'] = sys.getrecursionlimit()
+    snap['E:sys.stdio'] = [id(sys.stdout), id(sys.stderr), id(sys.stdin)]
+    loc = sys.modules.get('locale')
+    if loc is not None:
+        try:
+            snap['E:locale'] = loc.setlocale(loc.LC_ALL)
+        except Exception:
+            pass
+    dec = sys.modules.get('decimal')
+    if dec is not None:
+        snap['E:decimal.context'] = _tok(dec.getcontext())
+    lg = sys.modules.get('logging')
+    if lg is not None:
+        snap['E:logging'] = [lg.root.level, lg.root.manager.disable, bool(lg.raiseExceptions)]
 
 
 def diff_keys(a, b):
@@ -508,19 +732,22 @@ def run_call(t, seed):
     f, args, kwargs = t['make']()
     if seed is not None:
         np.random.seed(seed)
-    a0, w0 = arg_snapshot(args, kwargs), world()
-    t0 = time.time()
-    try:
-        with warnings.catch_warnings():
-            warnings.simplefilter('ignore')
+    with warnings.catch_warnings():
+        # both snapshots are taken INSIDE the block: a warnings filter installed by the call is seen before
+        # catch_warnings takes it out again
+        warnings.simplefilter('ignore')
+        a0, w0 = arg_snapshot(args, kwargs), world()
+        t0 = time.time()
+        try:
             res = ['ok', canon(f(*args, **kwargs))]
-    except Exception as e:
-        res = exc_token(e)
-    a1, w1 = arg_snapshot(args, kwargs), world()
+        except Exception as e:
+            res = exc_token(e)
+        t1 = time.time()
+        a1, w1 = arg_snapshot(args, kwargs), world()
     plt.close('all')
     changed_args = diff_keys(a0, a1)
     changed_world = diff_keys(w0, w1)
-    return dict(template=t['name'], seed=seed, result=res, secs=round(time.time() - t0, 3),
+    return dict(template=t['name'], seed=seed, result=res, secs=round(t1 - t0, 3),
                 arg_changes=[[k, a0.get(k), a1.get(k)] for k in changed_args],
                 world_changes=[[k, w0.get(k, '<absent>'), w1.get(k, '<absent>')] for k in changed_world])
 
@@ -699,12 +926,35 @@ def judge_effects(ctx, tab, ts, rec, history, pos):
                           (t['name'], t['entries'][-1], key[2:], json.dumps(before)[:200], json.dumps(after)[:200]),
                           dict(history=[[t['name'], rec['seed']]], position=0, kind='default', key=key),
                           site='%s[default]' % key[2:].split(':')[0])
+        elif key.startswith('E:'):
+            state = key[2:].split('[')[0]
+            if (t['entries'][-1], state) in AMBIENT_REPORTED:
+                ctx.count('ambient_change_again:' + state)      # one report per callable and state
+                continue
+            AMBIENT_REPORTED.add((t['entries'][-1], state))
+            ctx.violation('property', 'call template %s (%s) %s and left process-wide state changed that later results depend on: '
+                          '%s was %s, is %s afterwards%s' %
+                          (t['name'], t['entries'][-1], 'raised %s' % rec['result'][1] if rec['result'][0] == 'exc' else 'returned',
+                           key[2:], json.dumps(before)[:160], json.dumps(after)[:160], AMBIENT_WHY.get(key[2:].split('[')[0], '')),
+                          dict(history=[[t['name'], rec['seed']]], position=0, kind='ambient', key=key),
+                          site='%s[ambient]' % t['entries'][-1])
         elif key not in ok:
             ctx.violation('correspondence', 'call template %s (%s) changed %s, which the generated effect summary does not allow '
                           '(allowed: %s): %s -> %s' % (t['name'], t['entries'], key, sorted(ok), json.dumps(before)[:160], json.dumps(after)[:160]),
                           dict(history=short, position=pos, kind='state', key=key), site='%s[state]' % t['entries'][-1])
         else:
             ctx.count('allowed_state_change:' + key)
+
+
+AMBIENT_REPORTED = set()
+AMBIENT_WHY = {
+    'numpy.errstate': ' (NumPy\'s error mode decides whether 0/0, x/0, log(0) give nan / inf or raise FloatingPointError: pc of one '
+                      'element, renyi2_entropy without coincidences, pcDelta of one sequence ...)',
+    'numpy.printoptions': ' (every later str() / repr() of an array)',
+    'warnings.filters': ' (whether later calls warn, stay silent or raise)',
+    'python.random': ' (Python\'s `random` generator is igraph\'s default random number generator)',
+    'matplotlib.rcParams': ' (every later figure)', 'matplotlib.interactive': ' (every later figure)',
+}
 
 
 def grid_neighbours(ts, shared):
@@ -759,12 +1009,34 @@ def make_histories(ctx, ts, seeds):
                 h.append(rng.choice(shared))
         H.append(h)
     H = [[[n, seeds.get(n)] for n in h] for h in H]
+    # after a call that RAISED (round 3): every raising template - most of them raise late, from inside an optimiser, a
+    # callback, a library routine, a half-drawn figure - is followed by the boundary templates (results nan / inf / empty:
+    # 0/0, x/0, log 0), in a fresh random order each time, so that whatever the interrupted call did not put back
+    # (NumPy's error mode, a filter, an option, a module-level block) meets the calls that are sensitive to it.  The
+    # thorough tier additionally has every ordered pair adjacent (all ordered pairs of base templates below).
+    boundary = [n for n in names if ts[n].get('boundary')]
+    after_raise = []
+    if boundary and raising:
+        order = raising[:]
+        rng.shuffle(order)
+        ngrp = 4 if ctx.quick else 8
+        for g in range(ngrp):
+            h = []
+            for r in order[g::ngrp]:
+                b = boundary[:]
+                rng.shuffle(b)
+                h += [r] + b
+            if h:
+                after_raise.append([[n, seeds.get(n)] for n in h])
+    H += after_raise
+    ctx.extra['after_raise'] = dict(raising_templates=len(raising), boundary_templates=len(boundary), sessions=len(after_raise),
+                                    calls=sum(len(h) for h in after_raise))
     # histories are concatenated into sessions, one fresh interpreter each (a session is itself a history)
     nsess = 12 if ctx.quick else max(12, sum(len(h) for h in H) // 120)
     S = [[] for _ in range(nsess)]
-    for i, h in enumerate(H):
+    for i, h in enumerate(H[:len(H) - len(after_raise)]):
         S[i % nsess] += h
-    S = [x for x in S if x]
+    S = [x for x in S if x] + after_raise
     # ---- shared-data sessions: the same sequences / tables, other arguments
     #  (a) whole-family orders: a random permutation of the family and its reverse put every ordered pair of shared
     #      templates into one interpreter, earlier -> later (state that PERSISTS, e.g. a memo keyed by sequence);
@@ -793,13 +1065,21 @@ def make_histories(ctx, ts, seeds):
     ctx.extra['shared_data'] = dict(templates=len(shared), grid_adjacencies=sum(len(v) for v in nb.values()),
                                     adjacencies_not_walked=len(todo), family_orders=2 * nperm, walks=nwalk)
     if not ctx.quick:
-        # exhaustive small domain: every ordered pair of (base) templates executed back to back (a,b and b,a), one session per a
-        for a in base:
-            S.append([[n, seeds.get(n)] for b in base for n in (a, b)])
+        # exhaustive small domain: every ordered pair of the regular base templates executed back to back (a,b and b,a), one
+        # session per a; and every (raising template, boundary template) pair in both orders, one session per raising template
+        # (the late-raising and boundary templates of round 3 among themselves would double the cost for pairs of cheap calls)
+        late = set(t['name'] for t in edge_templates())
+        regular = [n for n in base if n not in late]
+        for a in regular:
+            S.append([[n, seeds.get(n)] for b in regular for n in (a, b)])
+        for r in raising:
+            S.append([[n, seeds.get(n)] for b in boundary for n in (r, b)])
         ctx.exhaustive = True
-        ctx.note('thorough tier: all %d ordered pairs of the %d base call templates were executed adjacently; the %d shared-data '
-                 'templates in %d whole-family orders and %d grid walks (%d of %d one-coordinate adjacencies not executed)'
-                 % (len(base) ** 2, len(base), len(shared), 2 * nperm, nwalk, len(todo), sum(len(v) for v in nb.values())))
+        ctx.note('thorough tier: all %d ordered pairs of the %d regular base call templates and all %d (raising, boundary) pairs in both '
+                 'orders were executed adjacently; the %d shared-data templates in %d whole-family orders and %d grid walks (%d of %d '
+                 'one-coordinate adjacencies not executed)'
+                 % (len(regular) ** 2, len(regular), len(raising) * len(boundary), len(shared), 2 * nperm, nwalk, len(todo),
+                    sum(len(v) for v in nb.values())))
     return H, S
 
 
@@ -827,6 +1107,7 @@ def run(ctx):
                 'another fresh interpreter, bracketed by snapshots of its arguments, of all default objects, module/class '
                 'data and the NumPy generator; non-trivial := executed after at least one other call, keyed by '
                 '(template, the calls before it)')
+    AMBIENT_REPORTED.clear()
     tab = table_rows(ctx)
     pure, offenders, conflicts = ctx.oracle.run([('api_c20_table_pure', [True]), ('api_c20_offenders', [True]),
                                                  ('api_c20_conflicts', [True])])
@@ -938,6 +1219,9 @@ def run(ctx):
     if failing:
         ctx.extra['calls_differing_from_fresh_reference'] = dict(
             calls=len(failing), templates=sorted({r['template'] for _, _, r in failing})[:60])
+    if os.environ.get('C20_DUMP'):          # debugging aid: all violations of this run as JSON
+        with open(os.environ['C20_DUMP'], 'w') as fh:
+            json.dump(ctx.violations, fh, indent=1, default=str)
     ctx.assumptions += [
         'the effect analysis is a conservative SYNTACTIC summary: library functions outside its lists neither mutate nor return their '
         'arguments, callables buried in containers are not followed, lazily evaluated results are evaluated before the call returns; '
